@@ -242,6 +242,26 @@ func (s *Sim) settleAll() {
 
 func (s *Sim) gcOwners() int {
 	n := 0
+	// foreground deletion: the dependents of a Terminating replica set go first, then the replica set
+	for _, r := range s.Store.ERSs() {
+		if r.DeletionTimestamp == nil || len(r.Finalizers) != 1 || r.Finalizers[0] != "foregroundDeletion" {
+			continue
+		}
+		left := 0
+		for _, p := range s.Store.Pods() {
+			if p.Namespace == r.Namespace && ownerUID(&p.ObjectMeta, "ExtendedDaemonSetReplicaSet") == string(r.UID) {
+				if p.DeletionTimestamp == nil {
+					_ = s.Store.Delete(KPod, p.Namespace, p.Name)
+					n++
+				}
+				left++
+			}
+		}
+		if left == 0 {
+			s.Store.Remove(objKey{KERS, r.Namespace, r.Name})
+			n++
+		}
+	}
 	for pass := 0; pass < 3; pass++ {
 		uids := map[string]bool{}
 		for k := range s.Store.objs {
@@ -387,6 +407,9 @@ func (s *Sim) userSetTemplate(ns, name, letter string) {
 		return
 	}
 	e.Spec.Template = def.Templates[letter].Spec()
+	if s.W.Extra["namedEdits"] == "1" {
+		e.Spec.Template.Name = "agent" // the manifest names its pod template; the defaulting clears it
+	}
 	s.Store.ForceUpdate(e)
 }
 
